@@ -254,47 +254,3 @@ def replay(ctx, payload):
     lens = [io[i] for i, o in enumerate(ops) if o["op"] == "cas.is_lenient"]
     return any(x.get("ok") is not True for x in lens)
 
-
-def _short_name_region(ops):
-    """the reduced type system lacks a type without namespace of the full one while it has a packaged type of that short name"""
-    names = {}
-    for o in ops:
-        if o.get("op") == "ts.create_type":
-            names.setdefault(o.get("ts", 0), []).append(o["name"])
-    if len(names) < 2:
-        return False
-    full, reduced = set(names[min(names)]), set(names[max(names)])
-    for m in full - reduced:
-        if "." not in m and sum(1 for n in reduced if "." in n and n.rsplit(".", 1)[1] == m) == 1:
-            return True
-    return False
-
-
-def finding_of(fl):
-    ops = (fl.get("scenario") or {}).get("ops") or []
-    what = str(fl.get("what", ""))
-    # (a load that fails or keeps the structure also shifts what the later observations of the scenario see: the handle of the
-    #  lenient CAS is then another CAS's)
-    if _short_name_region(ops) and (what.startswith("strict loading of a document with structures of an unknown type did not raise")
-                                    or what.startswith("lenient load") or what == "a view handle of a lenient CAS is not lenient"):
-        return "L1-unknown-bare-type-resolved-by-short-name"
-    return None
-
-
-def run_witness(ctx, finding):
-    if finding["id"] != "L1-unknown-bare-type-resolved-by-short-name":
-        return False
-    import warnings
-    from cassis import Cas, TypeSystem, load_cas_from_xmi
-    with warnings.catch_warnings():
-        warnings.simplefilter("ignore")
-        try:
-            ts = TypeSystem(); ts.create_type("b.type.Token", "uima.cas.TOP"); T = ts.create_type("Token", "uima.cas.TOP")
-            ts.create_feature(T, "k", "uima.cas.Integer"); ts.create_feature("b.type.Token", "k", "uima.cas.Integer")
-            cas = Cas(ts); cas.sofa_string = "abc"; cas.add(T(k=1))
-            x = cas.to_xmi()
-            ts2 = TypeSystem(); P = ts2.create_type("b.type.Token", "uima.cas.TOP"); ts2.create_feature(P, "k", "uima.cas.Integer")
-            c2 = load_cas_from_xmi(x, typesystem=ts2)          # must raise type-not-found
-            return [f.type.name for f in c2.select_all()] == ["b.type.Token"]
-        except Exception:  # noqa: BLE001
-            return False
